@@ -10,6 +10,7 @@ import (
 	"fmt"
 	"go/ast"
 	"go/parser"
+	"go/printer"
 	"go/token"
 	"path/filepath"
 	"sort"
@@ -376,6 +377,66 @@ func dumpFanouts(root string) string {
 				ls = append(ls, fmt.Sprintf("(%q, %s)", l[0], l[1]))
 			}
 			fmt.Fprintf(&b, "\n  (%q, %s, %d, [%s], %s)", filepath.Base(filepath.Dir(f))+"."+fd.Name.Name, leanStrList(ranged), lits, strings.Join(ls, ", "), leanStrList(made))
+		}
+	}
+	b.WriteString("]\n")
+	return b.String()
+}
+
+// pool sizes: for every function of pkg/ that calls X.Add(n) on a wait group - the expression n as written, and whether the
+// function first makes a `threads` parameter usable (`if threads < 1 { threads = ... }`). The every-schedule theorems
+// need at least one worker per pool (`zero_workers_lose_record`, `zero_workers_deadlock`).
+func dumpPoolSizes(root string) string {
+	files, _ := filepath.Glob(filepath.Join(root, "pkg", "*", "*.go"))
+	sort.Strings(files)
+	var b strings.Builder
+	b.WriteString("-- wait-group sizes: (function, the arguments of every X.Add(...) as written, has `if threads < 1 { threads = ... }`)\n")
+	b.WriteString("def poolSizes : List (String × List String × Bool) := [")
+	first := true
+	for _, f := range files {
+		base := filepath.Base(f)
+		if strings.HasSuffix(base, "_test.go") || strings.HasPrefix(base, "verif_") {
+			continue
+		}
+		fset := token.NewFileSet()
+		af, err := parser.ParseFile(fset, f, nil, 0)
+		if err != nil {
+			continue
+		}
+		for _, d := range af.Decls {
+			fd, ok := d.(*ast.FuncDecl)
+			if !ok || fd.Body == nil {
+				continue
+			}
+			var adds []string
+			guarded := false
+			ast.Inspect(fd.Body, func(n ast.Node) bool {
+				switch s := n.(type) {
+				case *ast.CallExpr:
+					if sel, ok := s.Fun.(*ast.SelectorExpr); ok && sel.Sel.Name == "Add" && len(s.Args) == 1 && strings.HasPrefix(strings.ToLower(identName(sel.X)), "wg") {
+						var sb strings.Builder
+						printer.Fprint(&sb, fset, s.Args[0])
+						adds = append(adds, sb.String())
+					}
+				case *ast.IfStmt:
+					if be, ok := s.Cond.(*ast.BinaryExpr); ok && be.Op == token.LSS && identName(be.X) == "threads" {
+						if lit, ok := be.Y.(*ast.BasicLit); ok && lit.Value == "1" && len(s.Body.List) == 1 {
+							if as, ok := s.Body.List[0].(*ast.AssignStmt); ok && len(as.Lhs) == 1 && identName(as.Lhs[0]) == "threads" {
+								guarded = true
+							}
+						}
+					}
+				}
+				return true
+			})
+			if len(adds) == 0 {
+				continue
+			}
+			if !first {
+				b.WriteString(",")
+			}
+			first = false
+			fmt.Fprintf(&b, "\n  (%q, %s, %v)", filepath.Base(filepath.Dir(f))+"."+fd.Name.Name, leanStrList(adds), guarded)
 		}
 	}
 	b.WriteString("]\n")
